@@ -545,7 +545,7 @@ def leaves(expr, env=None, _depth=0):
     return {x for x in norm if x not in ("np", "numpy")}
 
 
-def compare(code, spec, code_leaves=None, spec_leaves=None):
+def compare(code, spec, code_leaves=None, spec_leaves=None, known=()):
     """-> ('equal'|'different'|'unknown', detail). With leaf vocabularies given, 'unknown' means: the code mentions an identifier /
     function the specification does not (rewritten in a vocabulary this rule cannot read)."""
     if code == spec:
@@ -554,6 +554,9 @@ def compare(code, spec, code_leaves=None, spec_leaves=None):
         extra = {x for x in code_leaves - spec_leaves if not x.startswith("()SUM")}
         equiv = {"()square", "()sqrt", "()power", "()hypot", "()asarray", "()array", "()float", "()multiply", "()add", "()subtract", "()divide", "()sum", "()len"}
         extra -= equiv
+        extra -= {"float", "int"}  # dtype arguments
+        # identifiers the rule declares as documented, distinct quantities of the same object: using one of them in place of another is a different formula
+        extra -= set(known)
     else:
         extra = code.atoms() - spec.atoms()
     if extra:
